@@ -154,6 +154,7 @@ pub fn run_p<C: Codec>(
     };
     out.absorb_core(&core, trace);
     out.evals += 1;
+    out.mix(fe_brief::<C>(&fe).as_bytes());
     let sim_violations = core.borrow().sim_violations.clone();
     PRun { fe, offers: std::mem::take(&mut rd.offers), sim_violations, states, final_pos: rd.pos }
 }
@@ -179,6 +180,7 @@ pub fn run_a<C: Codec>(
     let fe = fe_async::<C>(&core, &mut rd, cap);
     out.absorb_core(&core, trace);
     out.evals += 1;
+    out.mix(fe_brief::<C>(&fe).as_bytes());
     let sim_violations = core.borrow().sim_violations.clone();
     ARun { fe, sim_violations, final_pos: rd.pos }
 }
